@@ -153,7 +153,7 @@ func runAll(f *flags, w *propWork, dir string) []*oblResult {
 			}
 			r.Size = q.SizeB
 			res, solver, ms, out, per := runSolvers(dir, r.Name, q.Script, timeoutFor(f.tier), f.tier == "thorough", f.seed)
-			if (res == "unknown" || res == "timeout") && f.tier == "quick" {
+			if (res == "unknown" || res == "timeout") && f.tier == "quick" && !(q.Ob.mustSat && x.con != nil && x.con.Hybrid) {
 				// one retry with another seed and a longer limit before giving up
 				res2, solver2, ms2, out2, per2 := runSolvers(dir, r.Name, q.Script, 30, false, f.seed+7919)
 				if res2 == "sat" || res2 == "unsat" {
